@@ -257,7 +257,7 @@ class Ctx:
             out[fam] = (tf, r["runs"])
         return out
 
-    def filtered(self, master, kinds, name, primary_only=True):
+    def filtered(self, master, kinds, name, primary_only=True, ep=None, only=None):
         """per-specification view of a master trace: keeps the listed event kinds, nothing is rewritten or reordered.
         primary_only: events of secondary connections (server connections created by replayed/duplicated client
         Initials, internal id >= 1) are left to the specifications that are about them (C11)"""
@@ -268,16 +268,27 @@ class Ctx:
         with open(dst, "w") as o:
             for line in open(master):
                 m = re.search(r'"ev":"([a-z_]+)"', line)
-                if m and m.group(1) in keep and not (primary_only and sec.search(line)):
+                if not (m and m.group(1) in keep) or (primary_only and sec.search(line)):
+                    continue
+                # ep: view of one endpoint (run separators and executor failures are kept)
+                if ep and m.group(1) not in ("reset", "panic", "stall") and ('"ep":"%s"' % ep) not in line:
+                    continue
+                # only: {event kind: substring that must occur}
+                if only and m.group(1) in only and only[m.group(1)] not in line:
+                    continue
+                if True:
                     o.write(line)
                     n += 1
         return dst, n
 
-    def validate_families(self, traces, spec, kinds, cfg=None):
+    def validate_families(self, traces, spec, kinds, cfg=None, per_endpoint=False, only=None):
         ok = True
-        for fam, (tf, runs) in traces.items():
-            f, n = self.filtered(tf, kinds, "%s-%s.ndjson" % (spec, fam))
-            ok &= self.trace(spec, f, runs=runs, label=fam, cfg=cfg)
+        views = [(fam, ep) for fam in traces for ep in (("c", "s") if per_endpoint else (None,))]
+        for fam, ep in views:
+            tf, runs = traces[fam]
+            tag = fam + ("-" + ep if ep else "")
+            f, n = self.filtered(tf, kinds, "%s-%s.ndjson" % (spec, tag), ep=ep, only=only)
+            ok &= self.trace(spec, f, runs=runs, label=tag, cfg=cfg)
             # distinct non-trivial runs: by content hash; non-trivial = the run contains a network fault or a
             # flow-control / reset / stop frame (i.e. something beyond the straight-line transfer)
             nt = re.compile(r'"act":"(?!pass)|"ty":"(stream_data_blocked|data_blocked|streams_blocked|reset_stream|stop_sending|max_stream_data|max_data|max_streams)"|"ev":"(packet_lost|app_reset|app_stop)"')
